@@ -10,7 +10,7 @@ from symex.symnum import is_sym
 EXPLANATION = ("Optimality of an ILP method = (the LP solver is exact) and (the model's feasible set and objective are the "
                "specification's). The first part is trusted (and cannot be exercised: no GLPK in the sandbox). The second is "
                "decided here: oilp_cgdp.ilp_cgdp / ilp_fgdp.factor_graph_lp_model are executed with LpProblem.solve replaced by "
-               "a capture of the built model; capacities, footprints, hosting costs (zero or positive symbolic) and routes are "
+               "a capture of the built model; capacities, footprints, hosting costs (zero, positive or negative symbolic) and routes are "
                "symbolic and flow into PuLP's coefficient arithmetic. For every 0/1 assignment of the placement and auxiliary "
                "variables (enumerated) z3 decides, for all parameter values: (i) the model is satisfiable on a placement iff the "
                "placement obeys the method's hard rules; (ii) on every feasible point the objective equals the method's own "
@@ -18,7 +18,7 @@ EXPLANATION = ("Optimality of an ILP method = (the LP solver is exact) and (the 
 ASSUMPTIONS = [
     "the LP solver (GLPK, absent) is trusted to return an optimum of the model it is given",
     "a computation has a zero hosting cost on at most one agent (contradictory pinning is excluded)",
-    "message load per link is the constant 1 so that route * load stays linear; all other parameters are symbolic reals in [0, 2^20]",
+    "message load per link is the constant 1 so that route * load stays linear; all other parameters are symbolic reals in [0, 2^20] (hosting costs: 0, or in [1, 2^20], or in [-2^20, -1] on the slots where the sign is a choice)",
     "pulp's math.isfinite check on coefficients is shimmed to accept symbolic numbers",
 ]
 BOUNDS = {"quick": "oilp_cgdp on the constraints hyper-graph of a pair and of chain-3 with 2 agents; ilp_fgdp on the factor graph of a pair with 2 agents",
@@ -68,8 +68,9 @@ def run(eng, p):
         an = "a%d" % i
         hc = {}
         for c in comps:
-            k = eng.pick(["pos", "zero"], "host_%s_%s" % (an, c)) if (c == comps[0] or (c == comps[-1] and i == 0)) else "pos"
-            hc[c] = 0 if k == "zero" else eng.sym_real("hc_%s_%s" % (an, c), 1, LIM)
+            k = eng.pick(["pos", "zero", "neg"], "host_%s_%s" % (an, c)) if (c == comps[0] or (c == comps[-1] and i == 0)) else "pos"
+            hc[c] = (0 if k == "zero" else eng.sym_real("hc_%s_%s" % (an, c), -LIM, -1) if k == "neg"
+                     else eng.sym_real("hc_%s_%s" % (an, c), 1, LIM))
             zero[(an, c)] = (k == "zero")
         routes = {"a%d" % j: eng.sym_real("route_%d_%d" % (min(i, j), max(i, j)), 0, LIM) for j in range(p["agents"]) if j != i}
         agents.append(AgentDef(an, capacity=eng.sym_real("cap_" + an, 0, LIM), default_hosting_cost=1, hosting_costs=hc,
